@@ -372,6 +372,12 @@ def run_job(job, tu, safety, scratch, want_trace=False, only_props=None):
                 if len(r.setdefault('bulk_samples', [])) < 2: r['bulk_samples'].append(ob)
                 continue
             r['obligations'].append(ob)
+        if job.get('mode') == 'dfcc':
+            # vacuity guard: an enforced contract whose function the harness never calls generates no postcondition obligation and would pass silently
+            alld = [res.get('description', '') for res in results]
+            for a in job['dfcc'].get('enforce', []):
+                if not any(d_.startswith('Check ensures clause of contract') and tu.aliases[a] in d_ for d_ in alld):
+                    raise ToolLimit('vacuous enforcement: no "Check ensures clause" obligation for contract %s (the entry point does not call the function under contract)' % a)
     except ToolLimit as ex:
         r['error'] = str(ex)
     return r
